@@ -128,8 +128,10 @@ theorem getProtocolE_caught (s : Str) (c : PyExn) (h : getProtocolE s = .error c
   unfold getProtocolE at h
   split at h
   · exact absurd h (by simp)
-  · dsimp only at h
-    split at h <;> (simp only [Except.error.injEq] at h; subst h; decide)
+  · next e _ =>
+    simp only [Except.error.injEq] at h
+    subst h
+    cases e <;> decide
 
 /-- `round(float(s))` fails only with `ValueError` or `OverflowError`. -/
 theorem pyRoundFloat_errors (s : Str) (c : PyExn) (h : pyRoundFloat s = .error c) :
